@@ -22,6 +22,12 @@ Theorem C15_scan_wf : forall ps tail, wf_ps ps tail = true ->
 Proof. exact scan_wf. Qed.
 Print Assumptions C15_scan_wf.
 
+(* the class is decidable by running the scanner: [wf_headerb] is the test the oracle applies to every header it meets
+   to decide whether the dict-model comparison is owed *)
+Theorem C15_wf_header_decided : forall h, wf_headerb h = true <-> wf_header h.
+Proof. exact wf_headerb_iff. Qed.
+Print Assumptions C15_wf_header_decided.
+
 (* One RequestCookies operation (assignment, deletion, clear, request.cookies = {...}) on a well-formed jar leaves a
    well-formed jar whose cookie pairs are the reference operation's, and returns / raises what the reference says:
    TypeError/IndexError for invalid names, ValueError for non-text values, KeyError iff the name is absent. *)
